@@ -86,6 +86,19 @@ def on_any_view(out, views, fn):
 
 
 
+DOMAIN_METHODS = {
+    "blockwatch::blocks::Block": {"partial_cmp", "cmp", "new", "content_intersects_with_any", "start_tag_intersects_with_any",
+                                  "intersects_with_line_change_inclusive", "intersects_with_line_change", "name", "name_display",
+                                  "content", "content_line_position", "severity"},
+    "blockwatch::blocks::FileBlocks": {"is_empty", "to_serializable_report"},
+    "blockwatch::blocks::FileSystemImpl": {"new", "walk", "read_to_string"},
+    "blockwatch::blocks::PathCheckerImpl": {"new", "should_allow", "should_ignore"},
+    "blockwatch::validators::ValidationContext": {"new", "to_serializable_report"},
+    "blockwatch::Position": {"new"},
+    "blockwatch::validators::Violation": {"new", "as_simple_diagnostic"},
+}
+
+
 class Ctx:
     def __init__(self, prefix=None):
         self.facts = factsmod.load(prefix)
@@ -258,10 +271,10 @@ class Ctx:
     def domain_api(cb):
         """Functions that rules use as anchors and that therefore stay calls under virtual inlining:
         the methods of the block model and the diagnostic constructors."""
-        if (cb.impl_self_adt or "") in ("blockwatch::blocks::Block", "blockwatch::blocks::BlockWithContext", "blockwatch::blocks::FileBlocks",
-                                        "blockwatch::blocks::FileSystemImpl", "blockwatch::blocks::PathCheckerImpl",
-                                        "blockwatch::validators::ValidationContext", "blockwatch::Position",
-                                        "blockwatch::validators::Violation"):
+        # (the methods rules anchor on, per type: a method added to one of these types later is an ordinary
+        # helper and is looked through like any other)
+        names = DOMAIN_METHODS.get(cb.impl_self_adt or "")
+        if names is not None and cb.id.rsplit("::", 1)[-1] in names:
             return True
         r = cb.local_ty(0)
         # diagnostic constructors (`create_violation`): they build the Violation themselves. A per-block
